@@ -875,3 +875,302 @@ Proof.
       destruct (Lk _ _ H2) as [cn2 [H2o [_ [_ [Eo _]]]]]. rewrite H2o, Eo. auto.
     + intros h2 b2 H2. exists b2. split; [subst s'; cbn; apply Old; assumption|]. repeat split; auto.
 Qed.
+
+(* ------------------------------------------------------------------ the unsubscribe callback *)
+Definition unsub_map (k : nat * N) (b : sub) : sub :=
+  if key_eqb (key_of b) k && match s_state b with SActive => true | _ => false end then sb_unsub true b else b.
+
+Lemma filter_map_len : forall A (p : A -> bool) (g : A -> A) l, (forall a, p (g a) = p a) -> length (filter p (map g l)) = length (filter p l).
+Proof. intros A p g l H. induction l as [|a l IH]; cbn; [reflexivity|]. rewrite H. destruct (p a); cbn; congruence. Qed.
+
+Lemma unsub_map_facts : forall k b,
+  same_static b (unsub_map k b) /\ s_state (unsub_map k b) = s_state b /\ s_sinks (unsub_map k b) = s_sinks b /\
+  s_inflight (unsub_map k b) = s_inflight b /\ s_has_permit (unsub_map k b) = s_has_permit b /\
+  s_ret (unsub_map k b) = s_ret b /\ s_returned (unsub_map k b) = s_returned b /\
+  (s_unsubscribed b = true -> s_unsubscribed (unsub_map k b) = true) /\
+  (s_unsubscribed (unsub_map k b) = true -> s_unsubscribed b = true \/ (key_of b = k /\ s_state b = SActive)) /\
+  (forall k', akey (unsub_map k b) = Some k' <-> akey b = Some k' /\ k' <> k).
+Proof.
+  intros k b. unfold unsub_map.
+  assert (Same : (forall k', akey b = Some k' -> k' <> k) ->
+            same_static b b /\ s_state b = s_state b /\ s_sinks b = s_sinks b /\ s_inflight b = s_inflight b /\
+            s_has_permit b = s_has_permit b /\ s_ret b = s_ret b /\ s_returned b = s_returned b /\
+            (s_unsubscribed b = true -> s_unsubscribed b = true) /\
+            (s_unsubscribed b = true -> s_unsubscribed b = true \/ (key_of b = k /\ s_state b = SActive)) /\
+            (forall k', akey b = Some k' <-> akey b = Some k' /\ k' <> k)).
+  { intro Hk. repeat split; auto; try tauto. }
+  destruct (key_eqb (key_of b) k && match s_state b with SActive => true | _ => false end) eqn:E.
+  - apply andb_true_iff in E. destruct E as [Ek Es]. apply key_eqb_eq in Ek.
+    assert (Ea : s_state b = SActive) by (destruct (s_state b); try discriminate; reflexivity).
+    cbn. do 9 (split; [solve [auto | repeat split; auto] |]).
+    intro k'. unfold akey at 1. cbn. rewrite Ea. split; [discriminate|].
+    intros [H1 H2]. apply akey_key in H1. destruct H1 as [H1 _]. congruence.
+  - apply Same. intros k' H Ek. apply akey_key in H. destruct H as [H [Ha _]]. subst k'.
+    rewrite (proj2 (key_eqb_eq (key_of b) k) Ek), Ha in E. discriminate.
+Qed.
+
+Lemma unsub_core_inv : forall s o c req target, Inv s -> InvO s o ->
+  let k := (c, target) in
+  let s1 := set_subs (set_table s (remove_key k (table s))) (map (unsub_map k) (subs s)) in
+  Inv s1 /\ InvO s1 (o ++ [OUnsubAnswer c req target (mem_key k (table s))]) /\ Mono s s1.
+Proof.
+  intros s o c req target I IO k s1.
+  assert (Lk : forall h b', nth_error (map (unsub_map k) (subs s)) h = Some b' -> exists b, nth_error (subs s) h = Some b /\ b' = unsub_map k b).
+  { intros h b' H. rewrite nth_error_map' in H. destruct (nth_error (subs s) h) as [b|]; [|discriminate]. inversion H. exists b. auto. }
+  assert (Lo : forall h b, nth_error (subs s) h = Some b -> nth_error (map (unsub_map k) (subs s)) h = Some (unsub_map k b)).
+  { intros h b H. rewrite nth_error_map', H. reflexivity. }
+  split; [|split].
+  - constructor; subst s1; unfold set_subs, set_table; cbn [subs conns table id_base notif_meth].
+    + intros h b' H. destruct (Lk _ _ H) as [b [Hb ->]]. pose proof (inv_sub s I _ _ Hb) as Hok.
+      destruct (unsub_map_facts k b) as [[S1 [S2 [S3 S4]]] [Es [Esk [Ei [Ep [Er [Erd [U1 [U2 _]]]]]]]]].
+      unfold sub_ok, live in *. rewrite S1, S2, S4, Es, Esk, Ei, Ep, Er, Erd.
+      destruct Hok as [A1 [A2 [A3 [A4 [A5 [A6 [A7 [A8 A9]]]]]]]].
+      split; [exact A1|]. split; [exact A2|]. split; [exact A3|]. split; [exact A4|]. split.
+      { intro Hn. destruct (A5 Hn) as [B1 [B2 [B3 B4]]]. repeat split; auto.
+        destruct (s_unsubscribed (unsub_map k b)) eqn:Eu; [|reflexivity]. destruct (U2 eq_refl) as [Hu | [_ Ha]]; congruence. }
+      split; [exact A6|]. split.
+      { intros Ha Hs. apply U1. apply A7; assumption. }
+      split; [exact A8 | exact A9].
+    + intro k'. rewrite remove_key_In, (inv_table s I). split.
+      * intros [[h [b [Hb Kb]]] Ne]. exists h, (unsub_map k b). split; [apply Lo; assumption|].
+        apply (proj2 (proj2 (proj2 (proj2 (proj2 (proj2 (proj2 (proj2 (proj2 (unsub_map_facts k b)))))))))). auto.
+      * intros [h [b' [Hb' Kb']]]. destruct (Lk _ _ Hb') as [b [Hb ->]].
+        apply (proj2 (proj2 (proj2 (proj2 (proj2 (proj2 (proj2 (proj2 (proj2 (unsub_map_facts k b)))))))))) in Kb'. destruct Kb'.
+        split; [exists h, b; auto | assumption].
+    + intros c2 cn Hc. unfold count_on. cbn [subs]. rewrite filter_map_len; [exact (inv_count s I _ _ Hc)|].
+      intro b. destruct (unsub_map_facts k b) as [[S1 _] [_ [_ [_ [Ep _]]]]]. unfold holds_on. rewrite S1, Ep. reflexivity.
+    + intros c2 cn f Hc Hf Hn. destruct (inv_frames s I _ _ _ Hc Hf Hn) as [h0 [b0 [H0 [E1 [E2 [E3 E4]]]]]].
+      destruct (unsub_map_facts k b0) as [[S1 [S2 [S3 S4]]] [Es _]].
+      exists h0, (unsub_map k b0). split; [apply Lo; assumption|]. repeat split; congruence.
+    + intros h b' H Ha. destruct (Lk _ _ H) as [b [Hb ->]]. destruct (unsub_map_facts k b) as [[S1 [S2 [S3 S4]]] [Es _]].
+      rewrite S1, S2, S3. apply (inv_accepted s I _ _ Hb). unfold accepted in *. rewrite <- Es. assumption.
+    + exact (inv_order s I).
+    + intros h b' cn H Hc. destruct (Lk _ _ H) as [b [Hb ->]].
+      destruct (unsub_map_facts k b) as [[S1 [S2 [S3 S4]]] [_ [_ [_ [_ [Er [Erd _]]]]]]].
+      rewrite S1 in Hc. unfold ret_pending. rewrite S2, Er, Erd. exact (inv_closing s I _ _ _ Hb Hc).
+  - constructor; subst s1; unfold set_subs, set_table; cbn [subs conns table id_base notif_meth].
+    + intros h b' cn H Hc. destruct (Lk _ _ H) as [b [Hb ->]]. destruct (unsub_map_facts k b) as [[S1 [S2 _]] _].
+      rewrite S1 in Hc. rewrite S2, log_of_app. cbn. rewrite app_nil_r. exact (io_fifo s o IO _ _ _ Hb Hc).
+    + intros h k0 x ok Hin. rewrite map_length. apply in_app_or in Hin. destruct Hin as [Hin | [Hin | []]]; [|discriminate].
+      exact (io_bound s o IO _ _ _ _ Hin).
+    + intros h b' H Ha Hu Hs. destruct (Lk _ _ H) as [b [Hb ->]].
+      destruct (unsub_map_facts k b) as [[S1 [S2 _]] [Es [Esk [_ [_ [_ [_ [_ [U2 _]]]]]]]]].
+      rewrite S1, S2. rewrite Es in Ha. rewrite Esk in Hs. destruct (U2 Hu) as [Hu' | [Ek _]].
+      * destruct (io_unsub s o IO _ _ Hb Ha Hu' Hs) as [r Hr]. exists r. apply in_or_app. auto.
+      * destruct (s_unsubscribed b) eqn:Eu.
+        -- destruct (io_unsub s o IO _ _ Hb Ha Eu Hs) as [r Hr]. exists r. apply in_or_app. auto.
+        -- exists req. apply in_or_app. right. left. unfold key_of in Ek. subst k. inversion Ek. subst c target.
+           replace (mem_key (s_conn b, s_id b) (table s)) with true; [reflexivity|]. symmetry. apply mem_key_In.
+           apply (inv_table s I). exists h, b. split; [assumption|]. unfold akey. rewrite Ha, Eu. reflexivity.
+  - split.
+    + intro c2. subst s1. unfold conn_open. cbn. auto.
+    + intros h b Hb. exists (unsub_map k b). split; [subst s1; cbn; apply Lo; assumption|].
+      destruct (unsub_map_facts k b) as [S [Es [_ [_ [_ [_ [_ [U1 _]]]]]]]]. split; [assumption|]. intro Ha. rewrite Es. auto.
+Qed.
+
+(* ------------------------------------------------------------------ small local lemmas for the remaining handler steps *)
+Lemma lo_returned : forall base meth n h b cn t r,
+  sub_ok base meth n h b -> s_returned b = false -> (s_state b = SActive \/ r = None) -> (forall v, r = Some v -> v <> CNone) ->
+  local_ok base meth n h b (sb_returned r b) cn cn t t [OAck] [].
+Proof.
+  intros base meth n h b cn t r Hok Hr Hs Hv. apply lo_quiet.
+  - sub_fields b. unfold sub_ok, live in *. cbn in *. subst. destruct Hs as [Hs | Hs]; subst;
+      intuition (try congruence; try discriminate; eauto).
+  - repeat split.
+  - reflexivity.
+  - reflexivity.
+  - reflexivity.
+  - auto.
+  - right. assumption.
+  - reflexivity.
+  - reflexivity.
+  - intros h' k1 x ok [H | []]. discriminate.
+Qed.
+
+Lemma lo_clone : forall base meth n h b cn t src k,
+  sub_ok base meth n h b -> In src (s_sinks b) ->
+  local_ok base meth n h b (sb_sinks (k :: s_sinks b) b) cn cn t t [OAck] [].
+Proof.
+  intros base meth n h b cn t src k Hok Hsrc.
+  assert (Ha : s_state b = SActive). { eapply sinks_active; [eassumption|]. intro E. rewrite E in Hsrc. destruct Hsrc. }
+  apply lo_quiet.
+  - sub_fields b. unfold sub_ok, live in *. cbn in *. subst. destruct bsinks; [destruct Hsrc|].
+    intuition (try congruence; try discriminate; eauto).
+  - repeat split.
+  - reflexivity.
+  - reflexivity.
+  - reflexivity.
+  - cbn. intros _ E. rewrite E in Hsrc. destruct Hsrc.
+  - left. reflexivity.
+  - auto.
+  - reflexivity.
+  - intros h' k1 x ok [H | []]. discriminate.
+Qed.
+
+Lemma lo_sendcheck : forall base meth n h b cn t k x,
+  sub_ok base meth n h b -> In k (s_sinks b) ->
+  local_ok base meth n h b (sb_inflight ((k, x) :: s_inflight b) b) cn cn t t [OAck] [].
+Proof.
+  intros base meth n h b cn t k x Hok Hk.
+  assert (Ha : s_state b = SActive). { eapply sinks_active; [eassumption|]. intro E. rewrite E in Hk. destruct Hk. }
+  apply lo_quiet.
+  - sub_fields b. unfold sub_ok, live in *. cbn in *. subst.
+    intuition (try congruence; try discriminate; eauto).
+  - repeat split.
+  - reflexivity.
+  - reflexivity.
+  - reflexivity.
+  - auto.
+  - left. reflexivity.
+  - auto.
+  - reflexivity.
+  - intros h' k1 y ok [H | []]. discriminate.
+Qed.
+
+Lemma conn_of_sub : forall s h b, Inv s -> nth_error (subs s) h = Some b -> exists cn, nth_error (conns s) (s_conn b) = Some cn.
+Proof.
+  intros s h b I Hb. destruct (inv_sub s I _ _ Hb) as [_ [_ [Hc _]]].
+  destruct (nth_error (conns s) (s_conn b)) as [cn|] eqn:E; [exists cn; reflexivity|]. apply nth_error_None in E. lia.
+Qed.
+
+Lemma conn_open_eq : forall s c cn, nth_error (conns s) c = Some cn -> conn_open s c = c_open cn.
+Proof. intros s c cn H. unfold conn_open. rewrite H. reflexivity. Qed.
+
+Lemma noop_inv : forall s o, Inv s -> InvO s o -> Inv s /\ InvO s (o ++ []) /\ Mono s s.
+Proof. intros. rewrite app_nil_r. split; [assumption|]. split; [assumption | apply Mono_refl]. Qed.
+
+Lemma same_state_inv : forall s o o1, Inv s -> InvO s o -> obs_quiet s o1 -> Inv s /\ InvO s (o ++ o1) /\ Mono s s.
+Proof. intros. split; [assumption|]. split; [apply InvO_quiet; assumption | apply Mono_refl]. Qed.
+
+Lemma push_rel : forall f cn, is_notif f = false -> conn_rel cn (c_push f cn).
+Proof.
+  intros f cn Hf. destruct (push_opt_conn (Some f) cn) as [P1 [P2 [P3 P4]]]. cbn [c_push_opt] in *.
+  repeat split; auto; try congruence. exists (opt_frames (Some f) cn). split; [assumption|].
+  intros g Hg. apply opt_frames_in in Hg. inversion Hg. subst. assumption.
+Qed.
+
+(* ------------------------------------------------------------------ one step keeps the invariants *)
+Lemma quiet1 : forall s ob, (forall h k x, ob <> OSendResult h k x true) ->
+  (forall h k x ok, ob = OSendResult h k x ok -> h < length (subs s)) -> obs_quiet s [ob].
+Proof.
+  intros s ob H1 H2. split.
+  - intro h2. cbn. destruct ob; cbn; try reflexivity. destruct ok; [|reflexivity]. exfalso. eapply H1. reflexivity.
+  - intros h k x ok [E | []]. eapply H2. eassumption.
+Qed.
+
+Ltac quiet_obs := apply quiet1; [intros; discriminate | intros; discriminate].
+
+Lemma step_core_inv : forall s o a, Inv s -> InvO s o ->
+  Inv (fst (step_core false s a)) /\ InvO (fst (step_core false s a)) (o ++ snd (step_core false s a)) /\
+  Mono s (fst (step_core false s a)).
+Proof.
+  intros s o a I IO. destruct a; cbn [step_core].
+  - (* SubscribeCall *)
+    destruct (nth_error (conns s) c) as [cn|] eqn:Hc; [|apply noop_inv; assumption].
+    destruct (c_open cn && negb (stopped s)); [|apply noop_inv; assumption].
+    destruct (c_permits cn) as [|p] eqn:Hp; cbn [fst snd].
+    + unfold push. apply (conn_upd_inv s o c cn _ _ I IO Hc); [apply push_rel; reflexivity | quiet_obs].
+    + exact (subscribe_admit_inv s o c cn p req I IO Hc Hp).
+  - (* Accept1 *)
+    destruct (nth_error (subs s) h) as [b|] eqn:Hb; [|apply noop_inv; assumption].
+    destruct (conn_of_sub s h b I Hb) as [cn Hcn]. pose proof (inv_sub s I _ _ Hb) as Hok.
+    destruct (s_state b) eqn:Es; try (apply noop_inv; assumption).
+    destruct (conn_open s (s_conn b)); cbn [fst snd].
+    + eapply apply_inv; eauto. apply lo_accept1; assumption.
+    + eapply apply_inv; eauto.
+      apply (lo_fail _ _ _ _ _ _ _ SDone None); auto; try reflexivity. intros; discriminate.
+      intros h' k y ok [H | []]. discriminate.
+  - (* Accept2 *)
+    destruct (nth_error (subs s) h) as [b|] eqn:Hb; [|apply noop_inv; assumption].
+    destruct (conn_of_sub s h b I Hb) as [cn Hcn]. pose proof (inv_sub s I _ _ Hb) as Hok.
+    destruct (s_state b) eqn:Es; try (apply noop_inv; assumption). cbn [fst snd].
+    eapply apply_inv; eauto. apply lo_accept2; assumption.
+  - (* Reject *)
+    destruct (nth_error (subs s) h) as [b|] eqn:Hb; [|apply noop_inv; assumption].
+    destruct (conn_of_sub s h b I Hb) as [cn Hcn]. pose proof (inv_sub s I _ _ Hb) as Hok.
+    destruct (s_state b) eqn:Es; try (apply noop_inv; assumption). cbn [fst snd].
+    eapply apply_inv; eauto.
+    apply (lo_fail _ _ _ _ _ _ _ SRejected (Some (FErr (s_req b) (ERejected code)))); auto; try reflexivity.
+    + intros f E. inversion E. reflexivity.
+    + intros h' k y ok [H | []]. discriminate.
+  - (* CloneSink *)
+    destruct (nth_error (subs s) h) as [b|] eqn:Hb; [|apply noop_inv; assumption].
+    destruct (conn_of_sub s h b I Hb) as [cn Hcn]. pose proof (inv_sub s I _ _ Hb) as Hok.
+    destruct (memN src (s_sinks b) && negb (memN k (s_sinks b))) eqn:G; [|apply noop_inv; assumption]. cbn [fst snd].
+    apply andb_true_iff in G. destruct G as [G1 _]. apply memN_In in G1.
+    eapply apply_inv; eauto. eapply lo_clone; eassumption.
+  - (* DropSink *)
+    destruct (nth_error (subs s) h) as [b|] eqn:Hb; [|apply noop_inv; assumption].
+    destruct (conn_of_sub s h b I Hb) as [cn Hcn]. pose proof (inv_sub s I _ _ Hb) as Hok.
+    destruct (memN k (s_sinks b) && negb (memN k (map fst (s_inflight b)))) eqn:G; [|apply noop_inv; assumption]. cbn [fst snd].
+    apply andb_true_iff in G. destruct G as [G1 G2]. apply memN_In in G1.
+    assert (G3 : ~ In k (map fst (s_inflight b))). { intro Hin. apply memN_In in Hin. rewrite Hin in G2. discriminate. }
+    unfold drop_sink. eapply apply_inv; eauto. apply lo_drop; assumption.
+  - (* SendCheck *)
+    destruct (nth_error (subs s) h) as [b|] eqn:Hb; [|apply noop_inv; assumption].
+    destruct (conn_of_sub s h b I Hb) as [cn Hcn]. pose proof (inv_sub s I _ _ Hb) as Hok.
+    destruct (memN k (s_sinks b) && negb (memN k (map fst (s_inflight b)))) eqn:G; [|apply noop_inv; assumption].
+    apply andb_true_iff in G. destruct G as [G1 _]. apply memN_In in G1.
+    destruct (sink_closed s b); cbn [fst snd].
+    + apply same_state_inv; auto. apply quiet1; [intros; discriminate|]. intros h0 k0 x0 ok E. inversion E; subst.
+      apply nth_error_Some. congruence.
+    + eapply apply_inv; eauto. apply lo_sendcheck; assumption.
+  - (* SendEnqueue *)
+    destruct (nth_error (subs s) h) as [b|] eqn:Hb; [|apply noop_inv; assumption].
+    destruct (conn_of_sub s h b I Hb) as [cn Hcn]. pose proof (inv_sub s I _ _ Hb) as Hok.
+    destruct (inflight_of k (s_inflight b)) as [x|] eqn:G; [|apply noop_inv; assumption]. cbn [fst snd].
+    rewrite (conn_open_eq _ _ _ Hcn). eapply apply_inv; eauto. apply lo_send_enq; auto.
+    intro Ha. destruct (inv_accepted s I _ _ Hb Ha) as [cn0 [Hc0 Hin]]. congruence.
+  - (* IsClosed *)
+    destruct (nth_error (subs s) h) as [b|] eqn:Hb; [|apply noop_inv; assumption].
+    destruct (memN k (s_sinks b)); [|apply noop_inv; assumption]. cbn [fst snd].
+    apply same_state_inv; auto. quiet_obs.
+  - (* HandlerReturn *)
+    destruct (nth_error (subs s) h) as [b|] eqn:Hb; [|apply noop_inv; assumption].
+    destruct (conn_of_sub s h b I Hb) as [cn Hcn]. pose proof (inv_sub s I _ _ Hb) as Hok.
+    destruct (s_returned b) eqn:Er; [apply noop_inv; assumption|].
+    destruct (s_state b) eqn:Es; cbn [fst snd]; try (apply noop_inv; assumption).
+    + eapply apply_inv; eauto.
+      apply (lo_fail _ _ _ _ _ _ _ SDone (Some (FErr (s_req b) EInternal))); auto; try reflexivity.
+      * intros f E. inversion E. reflexivity.
+      * intros h' k y ok [H | []]. discriminate.
+    + eapply apply_inv; eauto. apply lo_returned; auto. intros v0 E. destruct v; try discriminate; inversion E; discriminate.
+    + eapply apply_inv; eauto. apply lo_returned; auto. intros; discriminate.
+    + eapply apply_inv; eauto. apply lo_returned; auto. intros; discriminate.
+  - (* CloseNotify *)
+    destruct (nth_error (subs s) h) as [b|] eqn:Hb; [|apply noop_inv; assumption].
+    destruct (conn_of_sub s h b I Hb) as [cn Hcn]. pose proof (inv_sub s I _ _ Hb) as Hok.
+    destruct (s_ret b) as [v|] eqn:Er; [|apply noop_inv; assumption]. cbn [fst snd].
+    eapply apply_inv; eauto. apply lo_close_notify; auto.
+    intro Ha. destruct (inv_accepted s I _ _ Hb Ha) as [cn0 [Hc0 Hin]]. congruence.
+  - (* UnsubscribeCall *)
+    destruct (nth_error (conns s) c) as [cn|] eqn:Hc; [|apply noop_inv; assumption].
+    destruct (c_open cn && negb (stopped s)); [|apply noop_inv; assumption]. cbn [fst snd].
+    destruct (unsub_core_inv s o c req target I IO) as [I1 [IO1 M1]].
+    match goal with |- Inv (upd_conn ?s2 _ _) /\ _ => set (s1 := s2) in * end.
+    assert (Hc1 : nth_error (conns s1) c = Some cn) by exact Hc.
+    destruct (conn_upd_inv s1 _ c cn (c_enq (FUnsub req (mem_key (c, target) (table s)))) [] I1 IO1 Hc1) as [I2 [IO2 M2]].
+    + repeat split; auto. exists [FUnsub req (mem_key (c, target) (table s))]. split.
+      * unfold sent, c_enq. cbn. rewrite app_assoc. reflexivity.
+      * intros f [<- | []]. reflexivity.
+    + split; [reflexivity | intros ? ? ? ? []].
+    + rewrite app_nil_r in IO2. split; [exact I2|]. split; [exact IO2 | eapply Mono_trans; eassumption].
+  - (* WriterStep *)
+    destruct (nth_error (conns s) c) as [cn|] eqn:Hc; [|apply noop_inv; assumption].
+    destruct (c_open cn); [|apply noop_inv; assumption].
+    destruct (c_queue cn) as [|f q] eqn:Hq; [apply noop_inv; assumption|]. cbn [fst snd].
+    apply (conn_upd_inv s o c cn _ _ I IO Hc); [|quiet_obs].
+    unfold c_pop. rewrite Hq. repeat split; auto. exists []. split; [|intros ? []].
+    unfold sent. cbn. rewrite Hq, app_nil_r, <- app_assoc. reflexivity.
+  - (* ConnDrop *)
+    destruct (nth_error (conns s) c) as [cn|] eqn:Hc; [|apply noop_inv; assumption].
+    destruct (c_open cn); [|apply noop_inv; assumption]. cbn [fst snd].
+    apply (conn_upd_inv s o c cn _ _ I IO Hc); [|quiet_obs].
+    repeat split; auto; try discriminate. exists []. split; [|intros ? []]. unfold sent. cbn. rewrite app_nil_r. reflexivity.
+  - (* ServerStop *)
+    destruct (stopped s); [apply noop_inv; assumption|]. cbn [fst snd].
+    split; [|split].
+    + destruct I. constructor; assumption.
+    + apply InvO_quiet; [|quiet_obs]. destruct IO. constructor; assumption.
+    + exact (Mono_refl s).
+Qed.
